@@ -66,7 +66,7 @@ def run(ctx: Ctx) -> int:
     hops_total = 0
     kinds_hist = {}
     schedule = ec.job_schedule(ctx, 60 if ctx.thorough else 16)
-    n_directed = 6 if ctx.thorough else 2
+    n_directed = 8 if ctx.thorough else 4
     for si, (job, variant) in enumerate(schedule):
         if not budget.ok():
             break
@@ -77,11 +77,16 @@ def run(ctx: Ctx) -> int:
             # there with the command that reads the pending events of the LAST play (RESOLVE / KEYDOWNSTOP of that skill)
             x = rng.choice(list(simenv.delay_skill_names(job, variant)))
             filler = ["ELAPSE %s" % rng.choice([30, 100, 500]) for _ in range(9)]
-            prev = filler + ['CAST "%s"' % x, "ELAPSE 1000", "ELAPSE 7"]
+            # ... or a USE of it: one play log whose delay event is still pending, so the RESOLVE that follows elapses a time read
+            # from the RESTORED events (after a JSON writer that prints 720.0 as 720 an integer: fixed finding C04-resolve-int-delay)
+            verb = "CAST" if si % 4 < 2 else "USE"
+            prev = filler + ['%s "%s"' % (verb, x), "ELAPSE 1000", "ELAPSE 7"]
             tail = rng.choice([['RESOLVE "%s"' % x, "ELAPSE 100"], ['KEYDOWNSTOP "%s"' % x, 'RESOLVE "%s"' % x], ['RESOLVE "%s"' % x]])
-            hops, kinds = [filler + ['CAST "%s"' % x] + tail], [("directed-boundary-cast", 10)]
+            if verb == "USE":
+                tail = ['RESOLVE "%s"' % x, "ELAPSE 100"]
+            hops, kinds = [filler + ['%s "%s"' % (verb, x)] + tail], [("directed-boundary-%s" % verb.lower(), 10)]
             cur = hops[0]
-            kinds_hist["directed-boundary-cast"] = kinds_hist.get("directed-boundary-cast", 0) + 1
+            kinds_hist["directed-boundary-%s" % verb.lower()] = kinds_hist.get("directed-boundary-%s" % verb.lower(), 0) + 1
         else:
             n = rng.choice([9, 11, 12, 19, 21, 23, 31]) if si % 2 == 0 else rng.randint(3, 26)
             prev = simenv.random_plan(rng, job, variant, n)
